@@ -6,8 +6,10 @@
    to a global, a local or a value formal, assignment to an element of an array in scope, the system calls exit
    `0(e)` and put `1(e, s)` as statements, procedure-call statements and function calls as whole right-hand sides
    (relative to call_spec; XCodegenCall.v discharges it), the system call get `2(s)` as a whole right-hand side, over
-   the expressions of XCodegenExpr.v; array names in scope (global arrays, array formals) as actuals.
-   Not in the fragment: calls (and get) inside operands and actuals.
+   the expressions of XCodegenExpr.v; array names in scope (global arrays, array formals) as actuals; calls and get on
+   the left spine of + - = < ~ with simple right operands (cgl), also as conditions and as the first actual of a
+   procedure-call statement whose other actuals are simple (cargs1).
+   Not in the fragment: calls (and get) in right operands, subscripts and other actuals.
    The code is the one handed to OptimiseDirectives (before its three peephole rewrites).
 
    stmt_correct: if XSem executes the statement from a state related to the machine memory (Rel: protected words
@@ -97,6 +99,20 @@ Section Codegen.
     | _ => cgx e n
     end.
 
+  (* the actuals of a procedure call whose FIRST actual has a call (or get) on its left spine while the others are simple
+     (literals, variables, array names): genCallActuals computes it first and saves it in the first temporary, loadActuals
+     copies it to its outgoing word, then the simple actuals are stored -- the order in which XSem evaluates them *)
+  Definition cargs1 (args : list expr) (k : Z) (n : label) : option (list instr * label) :=
+    match args with
+    | e :: r =>
+        if pure e then cargs args k n
+        else if forallb simple r && ((0 <=? off0) && (off0 <? nslots)) then
+          do (c, n1) <- cgl e n; do (cr, n2) <- cargs r (k + 1) n1;
+          Some (c ++ [LDBM 1; STAI (size - 1 - off0)] ++ [LDAM 1; LDAI (size - 1 - off0); LDBM 1; STAI k] ++ cr, n2)
+        else None
+    | [] => cargs args k n
+    end.
+
   Fixpoint cs (s : stmt) (n : label) {struct s} : option (list instr * label) :=
     match s with
     | SSkip => Some ([], n)
@@ -136,7 +152,7 @@ Section Codegen.
         do pi <- pinfo p;
         if pf_isfunc pi then None
         else if Z.of_nat (List.length args) + 1 <=? og then
-          do (c, n1) <- cargs args 1 n; Some (c ++ [LDAP n1; BR (pf_entry pi); LABEL n1], n1 + 1)
+          do (c, n1) <- cargs1 args 1 n; Some (c ++ [LDAP n1; BR (pf_entry pi); LABEL n1], n1 + 1)
         else None
     | SSys 0 [e] =>
         if 3 <=? og then do (c, n1) <- cge e n; Some (c ++ [LDBM 1; STAI 2; LDAC 0; SVC; LDAM 1; LDAI 1], n1) else None
@@ -1415,6 +1431,127 @@ Section Correct.
           split; [|exact (conj HR1 (conj P1 F1))]. eapply runs_taus; [exact R1 | exact T2].
   Qed.
 
+
+  (* ---- a procedure call whose first actual has a call on its left spine *)
+  Notation cargs1' := (cargs1 pinfo venv pool size nslots aenv off0 og).
+
+  Lemma ret_ok_after isf st st1 r m m1 pos p1 nxt a b a1 b1 inp o1 :
+    runs inp (mk pos a b 0 m) o1 (adv inp st1) (mk p1 a1 b1 0 m1) -> post st st1 o1 -> frame_only m m1 ->
+    ret_ok isf st1 r m1 p1 nxt a1 b1 (adv inp st1) -> ret_ok isf st r m pos nxt a b inp.
+  Proof.
+    intros Hr Hp Hfo. destruct r as [v st'|c st'|u]; cbn [ret_ok]; trivial.
+    - intros (o & a' & b' & m' & H1 & H2 & H3 & H4 & H5). exists (o1 ++ o), a', b', m'. change (adv (adv inp st1) st') with (adv inp st') in H1.
+      exact (conj (runs_trans _ _ _ _ _ _ _ _ Hr H1) (conj H2 (conj (post_trans _ _ _ _ _ Hp H3) (conj (frame_only_trans _ _ _ Hfo H4) H5)))).
+    - intros (o & H1 & H2). exists (o1 ++ o). change (adv (adv inp st1) st') with (adv inp st') in H1.
+      exact (conj (runs_exits _ _ _ _ _ _ _ _ Hr H1) (post_hpost_trans _ _ _ _ _ Hp H2)).
+  Qed.
+
+  Lemma evals_len : forall args f st L s, evals f ge args st = Ret L s -> List.length (map fst L) = List.length args.
+  Proof.
+    induction args as [|e r IHa]; intros f st L s Eo.
+    - destruct (evals_nil _ _ _ _ _ Eo) as [-> _]. reflexivity.
+    - destruct (evals_cons _ _ _ _ _ _ _ Eo) as (f1 & v & sl & L' & -> & _ & Er & ->). cbn [map List.length]. f_equal. eapply IHa. exact Er.
+  Qed.
+
+  Lemma run_call1 F : (forall f', (f' < F)%nat -> call_spec f') ->
+    forall g pi args n c n1 f0 st0 m pos nxt a b inp, (f0 < F)%nat ->
+    pinfo g = Some pi -> Z.of_nat (List.length args) + koff pi <= og ->
+    cargs1' args (koff pi) n = Some (c, n1) -> Rel st0 m -> console inp = input st0 ->
+    code_at Cm lab pos (c ++ [LDAP n1; BR (pf_entry pi); LABEL n1]) nxt -> 0 <= pos -> nxt < W ->
+    ret_ok (pf_isfunc pi) st0
+      (bind (operands (evals f0 ge) args st0) (fun vs s1 => invoke (exec f0 ge) ge (pf_isfunc pi) g vs s1)) m pos nxt a b inp.
+  Proof.
+    intros Hcall g pi args n c n1 f0 st0 m pos nxt a b inp Hf Epi Eog Ec HR0 Hcon Hc Hp Hn.
+    unfold cargs1 in Ec. destruct args as [|e r]; [exact (run_call F Hcall g pi [] n c n1 f0 st0 m pos nxt a b inp Hf Epi Eog Ec HR0 Hcon Hc Hp Hn)|].
+    destruct (pure e) eqn:Epe; [exact (run_call F Hcall g pi (e :: r) n c n1 f0 st0 m pos nxt a b inp Hf Epi Eog Ec HR0 Hcon Hc Hp Hn)|].
+    destruct (forallb simple r && ((0 <=? off0) && (off0 <? nslots))) eqn:Econd; [|discriminate].
+    apply andb_prop in Econd. destruct Econd as [Esr Eoff]. apply andb_prop in Eoff. destruct Eoff as [Eo1 Eo2].
+    apply Z.leb_le in Eo1. apply Z.ltb_lt in Eo2.
+    assert (Hpr : forall x, In x r -> pure x = true).
+    { intros x Hx. rewrite forallb_forall in Esr. exact (simple_pure x (Esr x Hx)). }
+    destruct (cgl' e n) as [[ce n2]|] eqn:Ece; [|discriminate]. cbn [obind] in Ec.
+    destruct (cargs' r (koff pi + 1) n2) as [[cr n3]|] eqn:Ecr; [|discriminate]. cbn [obind] in Ec. inversion Ec; subst c n1. clear Ec.
+    assert (Hk0 : 1 <= koff pi <= 2) by (unfold koff; destruct (pf_isfunc pi); lia).
+    cbn [List.length] in Eog. rewrite Nat2Z.inj_succ in Eog.
+    (* the code *)
+    apply code_at_app in Hc. destruct Hc as (q0 & Hcargs & Hc).
+    apply code_at_app in Hcargs. destruct Hcargs as (p1 & Hc1 & Hcr0).
+    assert (Hs1 : exists p2, code_at Cm lab p1 [LDBM 1; STAI (size - 1 - off0)] p2 /\
+                   code_at Cm lab p2 ([LDAM 1; LDAI (size - 1 - off0); LDBM 1; STAI (koff pi)] ++ cr) q0).
+    { apply (code_at_app Cm lab [LDBM 1; STAI (size - 1 - off0)]). exact Hcr0. }
+    clear Hcr0. destruct Hs1 as (p2 & Hc2 & Hcr0).
+    assert (Hs2 : exists p3, code_at Cm lab p2 [LDAM 1; LDAI (size - 1 - off0)] p3 /\ code_at Cm lab p3 ([LDBM 1; STAI (koff pi)] ++ cr) q0).
+    { apply (code_at_app Cm lab [LDAM 1; LDAI (size - 1 - off0)] ([LDBM 1; STAI (koff pi)] ++ cr)). exact Hcr0. }
+    clear Hcr0. destruct Hs2 as (p3 & Hc3 & Hcr0).
+    assert (Hs3 : exists p4, code_at Cm lab p3 [LDBM 1; STAI (koff pi)] p4 /\ code_at Cm lab p4 cr q0).
+    { apply (code_at_app Cm lab [LDBM 1; STAI (koff pi)] cr). exact Hcr0. }
+    clear Hcr0. destruct Hs3 as (p4 & Hc4 & Hc5).
+    one_instr Hc3 p31 Hi31. one_instr Hc3 p32 Hi32. subst p32.
+    one_instr Hc q1 Hi2. one_instr Hc q2 Hi3. one_instr Hc q3 Hi4. subst q3. cbn [instr_at] in Hi4. destruct Hi4 as [E4 Ll]. subst q2.
+    pose proof (code_at_le _ _ _ _ _ Hc1) as L1. pose proof (code_at_le _ _ _ _ _ Hc2) as L2. pose proof (instr_at_le _ _ _ _ _ Hi31) as L31.
+    pose proof (instr_at_le _ _ _ _ _ Hi32) as L32. pose proof (code_at_le _ _ _ _ _ Hc4) as L4. pose proof (code_at_le _ _ _ _ _ Hc5) as L5.
+    pose proof (instr_at_le _ _ _ _ _ Hi2) as M2. pose proof (instr_at_le _ _ _ _ _ Hi3) as M3.
+    destruct (operands (evals f0 ge) (e :: r) st0) as [vs s1|hc hs|u] eqn:Eo; cbn [bind rcase]; [| |exact I].
+    2:{ (* the first actual exits *)
+        destruct (operands_first_halt _ _ _ _ _ _ _ Hpr Eo) as (f1 & -> & El).
+        pose proof (run_cgl F Hcall e n ce n2 f1 (set_cur st0 eff0) m pos p1 a b inp ltac:(lia) Ece
+                      (Rel_same _ _ _ (same_store_set_cur st0 eff0) HR0) Hcon Hc1 Hp ltac:(lia)) as R.
+        rewrite El in R. cbn [rhs_ok ret_ok] in *. destruct R as (outs & Ex & (G1 & G2)). exists outs. split; [exact Ex|].
+        cbn [out_rev ncons input set_cur] in G1, G2. exact (conj G1 G2). }
+    apply operands_ret in Eo. destruct Eo as (L & Eo & ->).
+    destruct (evals_cons _ _ _ _ _ _ _ Eo) as (f1 & v & sl & L' & -> & El & Er & ->).
+    pose proof (run_cgl F Hcall e n ce n2 f1 (set_cur st0 eff0) m pos p1 a b inp ltac:(lia) Ece
+                  (Rel_same _ _ _ (same_store_set_cur st0 eff0) HR0) Hcon Hc1 Hp ltac:(lia)) as R.
+    rewrite El in R. cbn [rhs_ok] in R. destruct R as (outs & z & b1 & m1 & -> & Hz & R1 & HR1 & P1 & F1).
+    (* the value goes to the first temporary and from there to its outgoing word *)
+    assert (Hslot : in_mem (sp + (size - 1 - off0)) = true /\ Tm (sp + (size - 1 - off0))).
+    { destruct HT_mem as [G1 G2]. unfold T, tlo, fb in *. split; [|lia]. unfold in_mem. apply andb_true_intro.
+      split; [apply Z.leb_le | apply Z.ltb_lt]; lia. }
+    destruct Hslot as [Sin ST].
+    pose proof (run_store_sp (size - 1 - off0) m1 p1 p2 (z mod W) b1 (adv inp sl) Hc2 (proj1 HR1) (proj1 (proj2 HR1)) Sin ltac:(lia)) as T2.
+    set (m2 := wr m1 (sp + (size - 1 - off0)) (z mod W)) in *.
+    assert (HR2 : Rel sl m2) by (apply Rel_wr_scratch; [left; exact ST | exact (proj1 (in_mem_range _ Sin)) | exact HR1]).
+    pose proof HR2 as (HC2 & H12 & _).
+    pose proof (exec_instr Cm lab m2 p2 p31 (LDAM 1) (z mod W) sp (adv inp sl) eq_refl Hi31 HC2 eq_refl ltac:(lia)) as T3.
+    cbn [sem fst snd] in T3. rewrite H12 in T3.
+    assert (R32 : readable (LDAI (size - 1 - off0)) sp sp) by (cbn [readable]; rewrite (in_mem_wrap _ Sin); exact Sin).
+    pose proof (exec_instr Cm lab m2 p31 p3 (LDAI (size - 1 - off0)) sp sp (adv inp sl) eq_refl Hi32 HC2 R32 ltac:(lia)) as T4.
+    cbn [sem fst snd] in T4. rewrite (in_mem_wrap _ Sin) in T4. unfold m2 in T4 at 2. rewrite rd_wr_same in T4.
+    destruct (O_facts (koff pi) ltac:(lia)) as (Oin & OnP & On1 & OnT & Os & Opos).
+    pose proof (run_store_sp (koff pi) m2 p3 p4 (z mod W) sp (adv inp sl) Hc4 HC2 H12 Oin ltac:(lia)) as T5.
+    set (m3 := wr m2 (sp + koff pi) (z mod W)) in *.
+    assert (HR3 : Rel sl m3) by (apply Rel_wr_scratch; [exact Os | exact Opos | exact HR2]).
+    (* the simple actuals *)
+    set (sl' := set_cur sl (eff_union (cur st0) (cur sl))) in *.
+    assert (Sl : same_store sl sl') by apply same_store_set_cur.
+    destruct (run_args r (koff pi + 1) n2 cr n3 f1 sl' L' s1 m3 Ecr Er (Rel_same _ _ _ Sl HR3) ltac:(lia) ltac:(lia)) as [Hss Hrun].
+    destruct (Hrun p4 q0 (z mod W) sp (adv inp sl) Hc5 ltac:(lia) ltac:(lia)) as (a4 & b4 & m4 & T6 & HR4 & Hk4 & Hst4).
+    assert (Sall : same_store sl s1) by (eapply same_store_trans; [exact Sl | exact Hss]).
+    pose proof (Rel_same _ _ _ Hss HR4) as HR4'.
+    assert (Hst : args_stored (map fst ((Vint z, cur sl) :: L')) (koff pi) m4).
+    { intros i v0 Hi. destruct i as [|j]; cbn [map fst nth_error] in Hi.
+      - inversion Hi; subst v0. rewrite Z.add_0_r. rewrite Hk4; [|exact Opos | exact OnT | lia]. unfold m3. rewrite rd_wr_same.
+        left. exists z. repeat split. exact Hz.
+      - pose proof (Hst4 j v0 Hi) as Hrd. replace (sp + koff pi + Z.of_nat (S j)) with (sp + (koff pi + 1) + Z.of_nat j) by lia. exact Hrd. }
+    pose proof (evals_len r f1 sl' L' s1 Er) as Hlen.
+    pose proof (exec_ldap Cm lab m4 q0 q1 n3 a4 b4 (adv inp sl) Hi2 (proj1 HR4) ltac:(lia) ltac:(lia)) as T7. rewrite Ll in T7.
+    pose proof (exec_br Cm lab m4 q1 nxt (pf_entry pi) nxt b4 (adv inp sl) Hi3 (proj1 HR4) Hn (Hentry g pi Epi)) as T8.
+    assert (Hinp : adv inp sl = adv inp s1) by (symmetry; apply adv_eq; exact (same_store_input _ _ Sall)).
+    pose proof (Hcall (S f1) Hf g pi (map fst ((Vint z, cur sl) :: L')) s1 m4 nxt b4 (adv inp s1) Epi HR4' eq_refl Hst
+                  ltac:(cbn [map List.length]; rewrite Hlen; lia) ltac:(lia)) as Hcs1.
+    assert (Hfo : frame_only m m4).
+    { eapply frame_only_trans; [exact F1|].
+      eapply frame_only_trans; [apply (frame_only_wr_scratch m1 _ (z mod W) (or_introl ST) (proj1 (in_mem_range _ Sin)))|].
+      eapply frame_only_trans; [apply (frame_only_wr_scratch m2 _ (z mod W) Os Opos)|].
+      intros x Hx Hns _. apply Hk4; [exact Hx | intros Ht; apply Hns; left; exact Ht|].
+      intros Hr. apply Hns. right. left. unfold O. lia. }
+    eapply (ret_ok_after (pf_isfunc pi) st0 s1 _ m m4 pos (lab (pf_entry pi)) nxt a b nxt b4 inp outs); [| | exact Hfo |].
+    - rewrite <- Hinp. eapply runs_taus; [exact R1|]. eapply taus_trans; [exact T2|]. eapply taus_trans; [exact T3|].
+      eapply taus_trans; [exact T4|]. eapply taus_trans; [exact T5|]. eapply taus_trans; [exact T6|]. eapply taus_trans; [exact T7 | exact T8].
+    - exact (post_end _ _ _ _ (post_start _ _ _ _ (same_store_set_cur st0 eff0) P1) Sall).
+    - exact Hcs1.
+  Qed.
+
   (* ---- the theorem *)
   Theorem stmt_correct_calls : forall f, (forall f', (f' < f)%nat -> call_spec f') -> stmt_ok f.
   Proof.
@@ -1720,10 +1857,10 @@ Section Correct.
       destruct (pf_isfunc pi) eqn:Eisf; [discriminate|].
       destruct (Z.of_nat (List.length args) + 1 <=? og) eqn:Eog; [|discriminate]. apply Z.leb_le in Eog.
       assert (Hko : koff pi = 1) by (unfold koff; rewrite Eisf; reflexivity).
-      destruct (cargs' args 1 n) as [[c n1]|] eqn:Ec; [|discriminate]. cbn [obind] in Hcs. inversion Hcs; subst code n'.
+      destruct (cargs1' args 1 n) as [[c n1]|] eqn:Ec; [|discriminate]. cbn [obind] in Hcs. inversion Hcs; subst code n'.
       destruct (call_is_proc g pi st0 m Epi HR0) as [-> | ->]; [|exact I].
       rewrite <- Hko in Ec, Eog.
-      pose proof (run_call (S f0) Hcall g pi args n c n1 f0 st0 m pos nxt a b inp ltac:(lia) Epi ltac:(lia) Ec HR0 Hcon Hc Hp Hn) as R.
+      pose proof (run_call1 (S f0) Hcall g pi args n c n1 f0 st0 m pos nxt a b inp ltac:(lia) Epi ltac:(lia) Ec HR0 Hcon Hc Hp Hn) as R.
       rewrite Eisf in R.
       destruct (operands (evals f0 ge) args st0) as [vs s1|hc hs|u]; cbn [bind rcase] in *; [| exact R | exact I].
       destruct (invoke (exec f0 ge) ge false g vs s1) as [rv st2|hc st2|u]; cbn [bind rcase result_ok ret_ok] in *; [| exact R | exact I].
